@@ -722,6 +722,7 @@ def prof_C16(d, rng):
     d["hostile_undefined"] = d["hostile"] and rng.random() < 0.5
     if d["hostile_undefined"] and d.get("p_undefined", 0) == 0:
         d["p_undefined"] = 0.1
+    d["hostile_ctrl_names"] = d["hostile"] and rng.random() < 0.5      # C0/C1 controls, ESC, U+FFFE in feature / scenario names
 
 
 def prof_C17(d, rng):
